@@ -316,6 +316,25 @@ func (c04) Build(tier string, seed uint64) []any {
 		c.Class = "varnoise"
 		cs = append(cs, c)
 	}
+	// (wide4) more than 4096 code-blocks in a row (deepest tag trees: 14 levels) and bands
+	// beyond one default precinct: minimal 4-sample code-blocks on strips longer than 2^14 / 2^15
+	for i, g := range [][3]int{{16388, 4, 0}, {5, 16400, 0}, {32780, 3, 1}, {40000, 2, 0}, {3, 33000, 0}, {16384, 4, 0}, {20000, 5, 1}, {65535, 1, 0}} {
+		if !th && i >= 5 && (i+int(seed))%2 == 0 {
+			continue
+		}
+		r := gen.Sub(seed, "C04", "wide4", i)
+		c := &j2kCase{Gen: "wide4"}
+		randJ2KConfig(r, c)
+		c.W, c.H, c.Levels = g[0], g[1], g[2]
+		c.C, c.P = 1, gen.Pick(r, 8, 12)
+		c.CBW, c.CBH = 4, 4
+		if i%3 == 2 {
+			c.CBW, c.CBH = gen.Pick(r, 4, 8), gen.Pick(r, 4, 8)
+		}
+		c.PW, c.PH = 0, 0
+		c.Layers = gen.Pick(r, 1, 1, 2)
+		cs = append(cs, c)
+	}
 	for i := range hdrffCases {
 		c := hdrffCases[i]
 		cs = append(cs, &c)
